@@ -128,4 +128,47 @@ theorem getLast?_filter_append {α} (p : α → Bool) (a b : List α) (h : (b.fi
   | none => exact absurd (List.getLast?_eq_none_iff.mp hb) h
   | some x => rfl
 
+/-! ### the extension table depends on the trusted sources only -/
+
+/-- the extension table after a line is a function of the table before it (no other field of the state matters) -/
+theorem stepLine_exts_congr (safeKeys : List Bytes) (os : Bool) (st st' : State) (line : Bytes)
+    (h : st.exts = st'.exts) :
+    (stepLine safeKeys os st line).exts = (stepLine safeKeys os st' line).exts := by
+  unfold stepLine
+  split
+  · exact h
+  unfold stepKV
+  cases decide safeKeys os (kvOf line).1 <;> simp [h]
+
+theorem readSource_exts_congr (safeKeys : List Bytes) (src : Source) (st st' : State)
+    (h : st.exts = st'.exts) :
+    (readSource safeKeys st src).exts = (readSource safeKeys st' src).exts := by
+  unfold readSource
+  generalize src.lines = lines
+  induction lines generalizing st st' with
+  | nil => exact h
+  | cons l ls ih =>
+    simp only [List.foldl_cons]
+    exact ih _ _ (stepLine_exts_congr safeKeys src.onlySafe st st' l h)
+
+/-- Take every safe-only source (every `.lfsconfig` location) out of the run: the extension table is the same. -/
+theorem exts_of_trusted_sources_only (safeKeys : List Bytes) (srcs : List Source) (st st' : State)
+    (h : st.exts = st'.exts) :
+    (srcs.foldl (readSource safeKeys) st).exts
+      = ((srcs.filter fun s => !s.onlySafe).foldl (readSource safeKeys) st').exts := by
+  induction srcs generalizing st st' with
+  | nil => exact h
+  | cons s ss ih =>
+    simp only [List.foldl_cons, List.filter_cons]
+    cases hs : s.onlySafe with
+    | true =>
+      simp only [Bool.not_true, Bool.false_eq_true, if_false]
+      apply ih
+      have : (readSource safeKeys st s).exts = st.exts := by
+        unfold readSource; rw [hs]; exact (foldl_safe safeKeys s.lines st).1
+      rw [this, h]
+    | false =>
+      simp only [Bool.not_false, if_true, List.foldl_cons]
+      exact ih _ _ (readSource_exts_congr safeKeys s st st' h)
+
 end Cfg
